@@ -273,6 +273,9 @@ fn alphabet_wide() -> Vec<V> {
         V::I64(0),
         mid(8, Some(V::F64(0.0))),
         mid(9, Some(V::F64(-0.0))),
+        // maps that differ in a bool key only (unequal, and `unique` must keep both)
+        V::Map(vec![(K::Bool(true), V::I64(1))]),
+        V::Map(vec![(K::Bool(false), V::I64(1))]),
     ]);
     v
 }
